@@ -3,6 +3,7 @@ import DymVerif.Model.Incent
 /-
   Driver/C15 — line-protocol driver of M-Incent.  One op per line; the observation is the op's
   outcome class followed by the canonical state (`ok | t=… P=… G=… S=… U=… A=… F=… B=…`).
+  `lock` / `unlock` / `xferowner` lines are not model ops (answered with `harness-only`).
 -/
 namespace DymVerif.Driver.C15
 open DymVerif DymVerif.Incent DymVerif.Driver
@@ -44,7 +45,9 @@ def showState (d : DState) : String :=
     s!"{g.id}:{showStatus g.status}:{g.filled}:{showCoins d.nd g.coins}:{showCoins d.nd g.distributed}"))
   let st := " ".intercalate (s.streams.map (fun x =>
     s!"{x.id}:{x.filled}/{x.numEpochs}:{showCoins d.nd x.coins}:{showCoins d.nd x.distributed}:{showCoins d.nd x.epochCoins}:{if x.ecEmpty then "E" else "N"}"))
-  let b := " ".intercalate (((List.range d.na) ++ [streamerAddr, incAddr]).map (fun a => s!"{a}:{showCoins d.nd (s.bank.get a)}"))
+  -- fresh addresses (200.., rollapp owners without an account of their own): ascending, non-zero balances only
+  let fresh := ((s.bank.filter (fun p => decide (p.1 ≥ 200) && !p.2.isZero)).map (·.1)).mergeSort (· ≤ ·)
+  let b := " ".intercalate (((List.range d.na) ++ [streamerAddr, incAddr] ++ fresh).map (fun a => s!"{a}:{showCoins d.nd (s.bank.get a)}"))
   let e := ",".intercalate (s.epochs.map (fun ep => toString ep.curStart))
   s!"t={s.now} it={s.maxIter} E={e} P={",".intercalate (s.ptrs.map showPtr)} G=[{g}] S=[{st}] U={showIds s.upcoming.ids} A={showIds s.active.ids} F={showIds s.finished.ids} B=[{b}]"
 
@@ -70,6 +73,9 @@ def step (d : DState) (f : List String) : DState × String :=
   | ["reset", now, mi, nd, na] =>
     let d' : DState := { s := init (nat! now) (nat! mi), nd := nat! nd, na := nat! na }
     (d', "ok | " ++ showState d')
+  -- harness-only lines: executed on the real lockup / rollapp module only (their effect reaches the model
+  -- through the `locks` / `rollapp` line that follows)
+  | "lock" :: _ | "unlock" :: _ | "xferowner" :: _ => (d, "harness-only")
   | _ =>
     match parseOp f with
     | none => (d, "bad-op")
